@@ -10,6 +10,9 @@ From Coq Require Import ZArith List Bool Lia Permutation Sorted.
 From PV Require Import Model.Base Model.TrapMap.
 Import ListNotations.
 
+Ltac case_if E :=
+  match goal with |- context [if ?c then _ else _] => destruct c eqn:E end.
+
 Section Sort.
   Variable N : Type.
   Variable nlt : N -> N -> bool.
@@ -85,7 +88,7 @@ Section Sort.
     Lemma insert_p_perm : forall (x : elt) l, Permutation (insert_p N nlt x l) (x :: l).
     Proof.
       induction l as [|y r IH]; simpl; auto.
-      destruct (clt (fst y) (fst x)); auto.
+      case_if E; auto.
       eapply perm_trans; [apply perm_skip, IH | apply perm_swap].
     Qed.
 
@@ -101,13 +104,13 @@ Section Sort.
       induction l as [|y r IH]; intros Dx Dl S; simpl.
       - constructor; constructor.
       - inversion Dl as [|? ? Dy Dr]; subst. inversion S as [|? ? Sr Fy]; subst.
-        destruct (clt (fst y) (fst x)) eqn:E.
+        case_if E.
         + constructor; auto.
           eapply Permutation_Forall; [apply Permutation_sym, insert_p_perm|].
           constructor; auto. unfold lep. apply clt_asym. auto.
         + constructor; auto. constructor; auto.
           rewrite Forall_forall in *. intros z Hz.
-          eapply lep_trans with (y := y); auto. apply Fy; auto.
+          eapply lep_trans with (y := y); auto; apply Fy; auto.
     Qed.
 
     Lemma sort_p_sorted : forall (l : list elt), Forall dimok l -> StronglySorted lep (sort_p N nlt l).
@@ -167,7 +170,8 @@ Section Sort.
     map fst (insert_p N nlt x l) = insert_c N nlt (fst x) (map fst l).
   Proof.
     induction l as [|y r IH]; simpl; auto.
-    destruct (clt (fst y) (fst x)); simpl; auto. rewrite IH. auto.
+    unfold TrapMap.coord in *.
+    case_if E; simpl; auto. rewrite IH. auto.
   Qed.
 
   Lemma sort_c_fst : forall A (l : list (coord * A)),
@@ -219,11 +223,13 @@ Section Sort.
     Forall (fun c => length c = d) l -> NoDup l -> StronglySorted lec l ->
     StronglySorted (fun a b => clt a b = true) l.
   Proof.
-    induction l as [|a r IH]; intros D ND S; constructor;
-      inversion D; inversion ND; inversion S; subst; auto.
-    rewrite Forall_forall in *. intros b Hb.
-    destruct (clt a b) eqn:E; auto.
-    assert (a = b) by (apply clt_tri; auto; [rewrite H1; symmetry; auto | apply H11; auto]).
-    subst. contradiction.
+    induction l as [|a r IH]; intros D ND S; constructor.
+    - inversion D; inversion ND; inversion S; subst; auto.
+    - inversion D as [|? ? Da Dr]; inversion ND as [|? ? Na NDr]; inversion S as [|? ? Sr Fa]; subst.
+      rewrite Forall_forall in *. intros b Hb.
+      destruct (clt a b) eqn:E; auto.
+      assert (a = b).
+      { apply clt_tri; auto. symmetry. apply Dr; auto. apply Fa; auto. }
+      subst. contradiction.
   Qed.
 End Sort.
